@@ -13,6 +13,7 @@ pub mod walcodec;
 pub mod aggworld;
 pub mod http;
 pub mod sched;
+pub mod sortworld;
 
 pub use rng::Rng;
 
